@@ -12,6 +12,7 @@ var verifHarnesses = map[string]func(){
 	"VerifC09Isolation": VerifC09Isolation,
 	"VerifC10Mixed": VerifC10Mixed,
 	"VerifC11Abort": VerifC11Abort,
+	"VerifC11CancelAnywhere": VerifC11CancelAnywhere,
 	"VerifC03Forged": VerifC03Forged,
 	"VerifC04Tampered": VerifC04Tampered,
 	"VerifC02Heal": VerifC02Heal,
